@@ -7,8 +7,32 @@ BASE_NOTE = ("Trusted base: CPython, numpy, pandas, Hypothesis and the harness' 
 ENGINES = [
     {"name": "runner", "path": "vlib/runner.py", "serves_properties": ["C%02d" % i for i in range(1, 20)],
      "kind_free_text": "Hypothesis driver: seeding, sharding over processes, corpus replay, shrinking, replay files, evidence"},
+    {"name": "brokerlab", "path": "vlib/brokerlab.py", "serves_properties": ["C01", "C03", "C05", "C12", "C13"],
+     "kind_free_text": "generated broker histories (relative op lists) interpreted against a real Exchange+Broker and an independent wealth ledger"},
+    {"name": "envlab", "path": "vlib/envlab.py", "serves_properties": ["C02", "C04", "C07", "C08", "C09", "C10", "C11", "C13", "C17"],
+     "kind_free_text": "generated grids / event streams / environment configs, recorder observer, bitwise traces, timing and ledger models"},
+    {"name": "xylab", "path": "vlib/xylab.py", "serves_properties": ["C02", "C18"],
+     "kind_free_text": "generated X/Y/rate tables and TradingEnvXY configurations"},
 ]
 CHECKS = {
+    "C01": dict(engine="brokerlab", technique="Hypothesis model-based histories vs independent wealth ledger + spot<->future metamorphic twin",
+                text="After every operation of generated broker histories the NLV is compared with an independent ledger; spot and margined twins must agree.",
+                note=BASE_NOTE),
+    "C03": dict(engine="brokerlab", technique="Hypothesis-generated prior holdings x targets vs post-trade position law; frictionless corollaries and idempotence",
+                text="One rebalance from arbitrary generated prior holdings is checked against q*M*px = w*NLV_pre, exact closing of absent contracts and the frictionless corollaries.",
+                note=BASE_NOTE),
+    "C05": dict(engine="brokerlab", technique="Hypothesis model-based histories vs margin law and NLV decomposition at the named observation points",
+                text="Posted margins, cash + margins + fully-paid values = NLV, weights and context are recomputed independently at every observation point of generated histories.",
+                note=BASE_NOTE),
+    "C12": dict(engine="brokerlab", technique="Hypothesis with dyadic (exact) boundary construction vs independent trade-set model; indifference band elsewhere",
+                text="make_trades is compared exactly with an independent trade-set model on inputs constructed on/around the threshold and lot boundaries.",
+                note=BASE_NOTE),
+    "C13": dict(engine="brokerlab", technique="Hypothesis fault-injection histories vs must-raise / must-succeed predicates and bitwise atomicity",
+                text="Quote faults (NaN sides, never quoted, discontinued) are injected at every position of generated histories; valuations and rebalances must raise or succeed as the model predicts and a failing rebalance must leave positions and track record untouched.",
+                note=BASE_NOTE),
+    "C15": dict(engine="envlab", technique="Hypothesis-generated grids/folds/lengths vs independent step model; seeded reachability of every valid start; exhaustive walk-forward sizes",
+                text="Episode visit sequences, exact decision counts, start sets (subset and reachability over seeds), refusals and walk-forward window algebra are checked against a naive model.",
+                note=BASE_NOTE),
     "C19": dict(engine="calendarlab", technique="exhaustive enumeration of (class, year, month) + Hypothesis-generated chains vs datetime.date reference calendar",
                 text="Every built-in future for every (class, year 1970..2099, month) is compared with an independent calendar; the finite domain is enumerated completely, chain spans are sampled.",
                 note=BASE_NOTE),
